@@ -921,11 +921,15 @@ class Exec:
     def _for(self, s, st, fr):
         it = self.ev(s.iter, st, fr)
         names, attrs = _assigned_names(s.body)
-        pre = {n: st.env[n] for n in names if n in st.env}
+        pre = {n: st.env[n] for n in names if n in st.env and not (st.env[n][0] == "unk" and st.env[n][1] in ("loop-carried", "after-loop"))}
         for n in names:
             # a variable defined before the loop and re-assigned in it is loop-carried: it is a
             # symbol inside the body; the rules compare its value at the end of the iteration with it
-            st.env[n] = ("carried", n, s.lineno) if n in pre else ("unk", "loop-carried", n)
+            ov = getattr(self, "carried_override", None)
+            if ov and (s.lineno, n) in ov and n in pre:
+                st.env[n] = ov[(s.lineno, n)]  # value the variable has after some earlier iteration (see XrefModel._unroll)
+            else:
+                st.env[n] = ("carried", n, s.lineno) if n in pre else ("unk", "loop-carried", n)
         for k in list(st.heap):
             if k[1] in attrs:
                 st.heap[k] = ("unk", "loop-carried attribute", k[1])
@@ -1446,7 +1450,9 @@ def labels_of_role(r):
         return set(r[1])
     if k == "CUR":
         return {"CUR"}
-    if k in ("T", "INFO", "REFIDX", "WRONGVM", "WRONGIDX"):
+    if k == "WRONGIDX":
+        return {"TARGET"} | labels_of_role(r[2])
+    if k in ("T", "INFO", "REFIDX", "WRONGVM"):
         return {"TARGET"}
     if k == "OFF":
         return {"OFF"}
@@ -2031,51 +2037,39 @@ class XrefModel:
         def wrap(v):
             return subst_term(v, {E: ("prev", E)})
 
-        def instantiate(st, op, state, light=False):
-            """-> substituted copy of the path or None if infeasible under `state`
-            (light: only the end-of-iteration event, enough to compute the next state)"""
-            m = {sym[n]: state[i] for i, n in enumerate(order)}
-            m.update(self._unprev)
+        def has_prev(t):
+            return any(isinstance(x, tuple) and x and x[0] == "prev" for x in subterms(t))
+
+        def rewrite(st, op):
+            """drop the path if its conditions are infeasible; identify values of an earlier iteration with the current
+            ones where the path condition equates them (`idx == last_idx`) -> rewritten copy of the path, or None"""
             e_end = self._ins_loop_end(st)
             conds = e_end.conds if e_end is not None else st.conds
             eq = {}
-            memo_m = {}
+            memo_u = {}
             for c in conds:
-                if not uses_carried(st):
-                    break
-                t2 = subst_term(c[0], m, memo_m)
+                t2 = subst_term(c[0], self._unprev, memo_u)
                 tv = self._cond_truth(t2, op)
                 if tv is not None and tv != c[1]:
                     return None
                 atom, truthy = _norm_cond(t2, c[1])
                 if isinstance(atom, tuple) and atom and atom[0] == "cmp" and atom[1] in ("==", "is") and truthy:
                     a, b = atom[2], atom[3]
-                    pa = any(isinstance(x, tuple) and x and x[0] == "prev" for x in subterms(a))
-                    pb = any(isinstance(x, tuple) and x and x[0] == "prev" for x in subterms(b))
+                    pa, pb = has_prev(a), has_prev(b)
                     if pa and not pb:
                         eq[a] = b
                     elif pb and not pa:
                         eq[b] = a
-            full = dict(m)
-
             memo_e = {}
 
             def sub(t):
                 if not isinstance(t, tuple):
                     return t
-                r = subst_term(t, full, memo_m)
+                r = subst_term(t, self._unprev, memo_u)
                 return subst_term(r, eq, memo_e) if eq else r
             st2 = St()
             st2.raised = st.raised
             st2.retval = st.retval
-            if light:
-                if e_end is None:
-                    return st2
-                ev2 = Ev(e_end.kind, e_end.node, e_end.func, e_end.stack, ())
-                ev2.name = e_end.name
-                ev2.key = {n: (pre, sub(v) if v is not None else None) for n, (pre, v) in e_end.key.items()} if isinstance(e_end.key, dict) else None
-                st2.events.append(ev2)
-                return st2
             st2.conds = tuple((sub(c[0]), c[1], c[2]) for c in st.conds)
             for ev in st.events:
                 ev2 = Ev(ev.kind, ev.node, ev.func, ev.stack, tuple((sub(c[0]), c[1], c[2]) for c in ev.conds))
@@ -2094,45 +2088,65 @@ class XrefModel:
                 st2.events.append(ev2)
             return st2
 
-        def end_state(st2):
+        cache = {}
+
+        def exec_state(rep, state):
+            """re-execute the root for opcode region `rep` with the carried variables holding `state`"""
+            k = (rep, state)
+            if k not in cache:
+                ex = Exec(self.eng, op=rep, no_inline=self.NO_INLINE, root_cls=self.root_cls)
+                ex.carried_override = {(loop_line, n): state[i] for i, n in enumerate(order)}
+                out = []
+                for st in ex.run(self.root):
+                    if st.raised:
+                        continue
+                    st2 = rewrite(st, rep)
+                    if st2 is not None:
+                        out.append(st2)
+                cache[k] = out
+            return cache[k]
+
+        def end_state(st2, state):
             e = self._ins_loop_end(st2)
             if e is None or not e.key:
                 return None
-            return tuple(wrap(e.key[n][1]) if e.key[n][1] is not None else const(None) for n in order)
+            vals = []
+            for i, n in enumerate(order):
+                v = e.key[n][1]
+                if v is None:
+                    v = const(None)
+                v = subst_term(v, {sym[n2]: state[i2] for i2, n2 in enumerate(order)})
+                vals.append(wrap(v))
+            return tuple(vals)
 
+        relevant = [(members[0], members) for members, sts in runs if any(uses_carried(st) for st in sts)]
+        relset = {r for r, _ in relevant}
         import itertools
-        s0 = set(itertools.product(*[sorted(names[n], key=repr) for n in order]))
+        s0 = list(itertools.product(*[sorted(names[n], key=repr) for n in order]))
         all_states = list(s0)
         frontier = list(s0)
         for _gen in range(2):
             nxt = []
             for state in frontier:
                 for members, sts in runs:
-                    for st in sts:
-                        if st.raised:
-                            continue
-                        st2 = instantiate(st, members[0], state, light=True)
-                        if st2 is None:
-                            continue
-                        ns = end_state(st2)
+                    paths = exec_state(members[0], state) if members[0] in relset else [st for st in sts if not st.raised]
+                    for st in paths:
+                        ns = end_state(st, state)
                         if ns is not None and ns not in all_states and ns not in nxt:
                             nxt.append(ns)
-            if len(all_states) + len(nxt) > 48:
-                break
+            if len(all_states) + len(nxt) > 40:
+                raise AnalysisError("%s: more than 40 distinct loop-carried states of %s after two iterations" % (self.root.qualname, order))
             all_states += nxt
             frontier = nxt
         self.unrolled_states = len(all_states)
         out = []
         for members, sts in runs:
+            if members[0] not in relset:
+                out.append((members, sts))
+                continue
             new_sts = []
-            for st in sts:
-                if not uses_carried(st):
-                    new_sts.append(st)
-                    continue
-                for state in all_states:
-                    st2 = instantiate(st, members[0], state)
-                    if st2 is not None:
-                        new_sts.append(st2)
+            for state in all_states:
+                new_sts += exec_state(members[0], state)
             out.append((members, new_sts))
         return out
 
@@ -4007,6 +4021,13 @@ def m_replace_src(old, new, count=1):
             for ch in ast.iter_child_nodes(parent):
                 ch._parent = parent
         return True
+    return fn
+
+
+def m_seq(*fns):
+    """apply several edits in sequence (all must apply)"""
+    def fn(node):
+        return all(f(node) for f in fns)
     return fn
 
 
